@@ -88,6 +88,21 @@ MUTANTS = [
         *t = if !main && nw > 1 && i == nw - 1 { 0 } else { w } & num_vars_mask(num_vars);
     }
 }"""),
+    ("uninit_last_word_of_big_tables", {"ub"}, """pub fn fill_random(num_vars: usize, table: &mut [u64]) {
+    use rand::RngCore;
+    let n = table.len();
+    let mut buf: Vec<u64> = Vec::with_capacity(n);
+    #[allow(clippy::uninit_vec)]
+    unsafe {
+        buf.set_len(n);
+    }
+    // "bulk fill" that forgets the last word of big tables
+    let filled = if n > 16 { n - 1 } else { n };
+    for t in buf.iter_mut().take(filled) {
+        *t = rand::thread_rng().next_u64() & num_vars_mask(num_vars);
+    }
+    table.copy_from_slice(&buf);
+}"""),
     ("panic_on_rare_word", {"panicked"}, """pub fn fill_random(num_vars: usize, table: &mut [u64]) {
     use rand::RngCore;
     for t in table {
